@@ -630,6 +630,22 @@ impl CanonicalizeContext {
 			};
 		}
 
+		if element_name == "mmultiscripts" {
+			// base, then (sub, super) pairs, optionally <mprescripts/> followed by more pairs
+			// (the arm below is never reached: mmultiscripts is not in ELEMENTS_WITH_FIXED_NUMBER_OF_CHILDREN)
+			let children = mathml.children();
+			let i_prescripts = children.iter().enumerate()
+					.filter(|(_, child)| child.element().is_some_and(|e| name(&e) == "mprescripts"))
+					.map(|(i, _)| i).collect::<Vec<usize>>();
+			let is_ok = match i_prescripts.as_slice() {
+				[] => n_children % 2 == 1,
+				[i] => *i >= 1 && (*i - 1) % 2 == 0 && (n_children - *i - 1) % 2 == 0,
+				_ => false,
+			};
+			if !is_ok {
+				bail!("{} has the wrong number of children:\n{}", element_name, mml_to_string(&mathml));
+			}
+		}
 		if ELEMENTS_WITH_FIXED_NUMBER_OF_CHILDREN.contains(element_name) {
 			match element_name {
 				"munderover" | "msubsup" => if n_children != 3 {
